@@ -101,8 +101,9 @@ func registerExecModel(e *Engine) {
 		return one(st, nil)
 	})
 
-	// oklog/run.Group.Run: the actors are executed one after the other (no interleaving): the first
-	// actor's result is passed to every interrupt function, then the remaining actors run.
+	// oklog/run.Group.Run: the actors are executed one after the other (no interleaving), but every
+	// actor is tried as "the first one to return": its result is passed to every interrupt function,
+	// then the remaining actors run to completion; Run returns that first result.
 	e.reg("(*github.com/oklog/run.Group).Run", func(c *CallCtx, st *State, args []Value) []Outcome {
 		en := c.E
 		g := st.Load(args[0].(Ptr)).(*StructV)
@@ -110,48 +111,57 @@ func registerExecModel(e *Engine) {
 		if len(actors) == 0 {
 			return one(st, nilErr)
 		}
-		type item struct {
-			st    *State
-			first Value
-		}
-		cur := []item{{st: st}}
 		var outs []Outcome
-		for i, a := range actors {
-			av := a.(*StructV)
-			var next []item
-			for _, it := range cur {
-				for _, o := range en.callValue(it.st, av.F[0], nil, nil, c.Frame) {
-					if o.Panic != nil {
-						outs = append(outs, o)
-						continue
+		for first := range actors {
+			s0 := st
+			if first < len(actors)-1 {
+				s0 = st.Clone()
+			}
+			s0.choices = append(s0.choices, ChoiceRec{Name: "run.Group.first_actor", V: first})
+			type item struct {
+				st  *State
+				ret Value
+			}
+			var cur []item
+			for _, o := range en.callValue(s0, actors[first].(*StructV).F[0], nil, nil, c.Frame) {
+				if o.Panic != nil {
+					outs = append(outs, o)
+					continue
+				}
+				// interrupt everybody with the first result
+				s2, ok := o.St, true
+				for _, b := range actors {
+					ro := en.callValue(s2, b.(*StructV).F[1], []Value{o.Ret}, nil, c.Frame)
+					if len(ro) != 1 || ro[0].Panic != nil {
+						outs = append(outs, ro...)
+						ok = false
+						break
 					}
-					first := it.first
-					if i == 0 {
-						first = o.Ret
-						// interrupt everybody with the first result
-						s2 := o.St
-						ok := true
-						for _, b := range actors {
-							ro := en.callValue(s2, b.(*StructV).F[1], []Value{first}, nil, c.Frame)
-							if len(ro) != 1 || ro[0].Panic != nil {
-								outs = append(outs, ro...)
-								ok = false
-								break
-							}
-							s2 = ro[0].St
-						}
-						if !ok {
-							continue
-						}
-						o.St = s2
-					}
-					next = append(next, item{st: o.St, first: first})
+					s2 = ro[0].St
+				}
+				if ok {
+					cur = append(cur, item{st: s2, ret: o.Ret})
 				}
 			}
-			cur = next
-		}
-		for _, it := range cur {
-			outs = append(outs, Outcome{St: it.st, Ret: it.first})
+			for i, a := range actors {
+				if i == first {
+					continue
+				}
+				var next []item
+				for _, it := range cur {
+					for _, o := range en.callValue(it.st, a.(*StructV).F[0], nil, nil, c.Frame) {
+						if o.Panic != nil {
+							outs = append(outs, o)
+							continue
+						}
+						next = append(next, item{st: o.St, ret: it.ret})
+					}
+				}
+				cur = next
+			}
+			for _, it := range cur {
+				outs = append(outs, Outcome{St: it.st, Ret: it.ret})
+			}
 		}
 		return outs
 	})
